@@ -275,8 +275,39 @@ def criterion_task(N, k0, cx):
     return Task("criterion.%s.N%d.stop%d" % ("complex" if cx else "real", N, k0), run, kind="bounded", functions=["spectrum.burg.arburg"])
 
 
+def arburg2_task(N, p, cx):
+    """_arburg2 (the vectorised second implementation) against arburg on the same symbolic samples: same polynomial (with its
+    leading 1), same final error, same reflection coefficients"""
+    def run(tc):
+        names = sum((["x%d_r" % j, "x%d_i" % j] if cx else ["x%d" % j] for j in range(N)), [])
+        dom, I = e3_interp(tc, names)
+        E = E3(tc, dom, "arburg2", {"N": N, "p": p, "complex": cx}, tc.seed)
+        x = [dom.csym("x%d" % j) if cx else dom.sym("x%d" % j) for j in range(N)]
+        dt = "complex" if cx else "float"
+        ref = E.run(I, lambda I_: I_.call_qual("spectrum.burg.arburg", Arr.from_items(list(x), dtype=dt), p))
+        if ref is None:
+            return
+        alt = E.run(I, lambda I_: I_.call_qual("spectrum.burg._arburg2", Arr.from_items(list(x), dtype=dt), p))
+        if alt is None:
+            return
+        a2 = alt[0].to_list()
+        E.ok("_arburg2:polynomial-length=p+1", len(a2) == p + 1, "length %d" % len(a2))
+        if len(a2) != p + 1:
+            return
+        one = Cx(Fraction(1), Fraction(0))
+        E.eq("_arburg2:polynomial=[1, arburg coefficients]", [V.Cx.of(v) for v in a2], [one] + [V.Cx.of(v) for v in ref[0].to_list()])
+        E.eq("_arburg2:final-error=arburg variance", alt[1], ref[1])
+        E.eq("_arburg2:reflection=arburg reflection", [V.Cx.of(v) for v in alt[2].to_list()], [V.Cx.of(v) for v in ref[2].to_list()])
+    return Task("arburg2.%s.N%d.p%d" % ("complex" if cx else "real", N, p), run, kind="bounded", prerun=True, timeout=150,
+                functions=["spectrum.burg._arburg2"])
+
+
 def tasks(tier):
     ts = [frame_task()]
+    # whole runs: complex data beyond (4, 1) and real data beyond order 2 give no result within 120 s (the reason arburg itself is verified stage-wise)
+    for (N, p, cx) in ([(4, 1, False), (5, 1, False), (3, 2, False), (4, 1, True)] if tier == "quick" else
+                       [(4, 1, False), (5, 1, False), (6, 1, False), (3, 2, False), (4, 2, False), (4, 1, True)]):
+        ts.append(arburg2_task(N, p, cx))
     Ns, ks = ((5, 7), (0, 1, 2, 3)) if tier == "quick" else ((5, 7, 10), (0, 1, 2, 3, 4, 5))
     for cx in (False, True):
         for N in Ns:
